@@ -7,11 +7,12 @@ import RedkaModel.Props.C14
 #print axioms Redka.Props.C14.parse_error_one_reply
 #print axioms Redka.Props.C14.in_multi_one_reply
 #print axioms Redka.Props.C14.in_multi_well_formed
-#print axioms Redka.Props.C14.exec_reply_count_partial
+#print axioms Redka.Props.C14.exec_one_reply
+#print axioms Redka.Props.C14.one_reply
 #print axioms Redka.Props.C14.exec_queue_values
 #print axioms Redka.Props.C14.wellFormedOne_on_the_wire
 #print axioms Redka.Props.C14.pipelined_replies_on_the_wire
 #print axioms Redka.Props.C14.pipeline_replies
 #print axioms Redka.Props.C14.one_reply_bytes
 #print axioms Redka.Props.C14.negative_numkeys_is_refused
-#print axioms Redka.Props.C14.exec_reply_short
+#print axioms Redka.Props.C14.exec_reply_complete
